@@ -141,6 +141,10 @@ def units(w):
     # obligations switched on)
     from .c02_parser import parser_units as grammar_units
     U.extend([u for u in grammar_units(w, "C20") if "parse_add_expr" in u.name or "parse_mul_expr" in u.name or "parse_rel_expr" in u.name])
+    # errors raised inside module code name the module: the module text is scanned under the file name mod:<module> (the units of
+    # C11 over the real NodeRequire.evaluate with an abstract file system; the obligation that matters here is the parse name)
+    from . import c11
+    U.extend(u for u in c11.units(w) if "NodeRequire.evaluate[" in u.name and "cached" not in u.name.split(",")[1])
     return U
 
 
@@ -252,11 +256,60 @@ def bounded(tier, seed):
             fn = getattr(obs, "filename", None)
             if got not in fline or fn != "prog.ckl":
                 fails.append({"id": f"bounded:error-line[{' '.join(toks[faults[0]:faults[0] + 2])}]", "input": repr(src), "observed": f"{obs}", "expected": f"prog.ckl line {fline}"})
+    # errors raised inside module code name the module and the line within the module, however the module was imported
+    import os
+    import shutil
+    import tempfile
+    import importlib
+    values = importlib.import_module("ckl.values")
+    d = tempfile.mkdtemp(prefix="c20mods", dir=os.environ.get("VERIF_SCRATCH", "/var/tmp"))
+    try:
+        with open(os.path.join(d, "faulty.ckl"), "w") as f:
+            f.write("# a user module\ndef ok() 1;\n\ndef boom(x) do\n  def y = x;\n  error 'inside';\nend;\ndef outer(x) do\n  boom(x);\nend;\n")
+        forms = [("require faulty; faulty->boom(1)", 6), ("require faulty as F; F->boom(1)", 6), ("require faulty unqualified; boom(1)", 6),
+                 ("require faulty import [boom as b]; b(1)", 6), ("require 'faulty.ckl' as G; G->boom(1)", 6), ("require faulty as H; H->outer(2)", 6)]
+        for legacy in (False, True):
+            for src, line in forms:
+                for first_alias in (None, "Z"):
+                    J = interp.Interpreter(True, legacy)
+                    mp = values.ValueList()
+                    mp.addItem(values.ValueString(d))
+                    J.base_environment.put("checkerlang_module_path", mp)
+                    ev += 1
+                    try:
+                        if first_alias:      # the module was first loaded under another alias: the cached module keeps its own name
+                            J.interpret(f"require faulty as {first_alias}", "prog.ckl")
+                        J.interpret(src, "prog.ckl")
+                        obs, trace = None, []
+                    except errors.CklRuntimeError as e:
+                        obs, trace = e.pos, list(e.stacktrace)
+                    except Exception as e:
+                        obs, trace = repr(e), []
+                    ok = getattr(obs, "filename", None) == "mod:faulty" and getattr(obs, "line", None) == line
+                    if "outer" in src:
+                        ok = ok and any("mod:faulty:9" in str(t) for t in trace)
+                    ok = ok and any("prog.ckl:1" in str(t) for t in trace)
+                    if not ok:
+                        fails.append({"id": "bounded:module-error-names-the-module-and-its-line", "input": (f"require faulty as {first_alias}; " if first_alias else "") + src,
+                                      "observed": f"{obs} trace={[str(t) for t in trace]}", "expected": f"mod:faulty line {line}, trace through prog.ckl:1"})
+        # a bundled module required under an alias
+        for legacy in (False, True):
+            J = interp.Interpreter(True, legacy)
+            ev += 1
+            try:
+                J.interpret("require List as L;\nL->reduce([], add)", "prog.ckl")
+                obs = None
+            except errors.CklRuntimeError as e:
+                obs = e.pos
+            if getattr(obs, "filename", None) != "mod:List":
+                fails.append({"id": "bounded:module-error-names-the-module-and-its-line", "input": "require List as L; L->reduce([], add)", "observed": str(obs), "expected": "mod:List:<line>"})
+    finally:
+        shutil.rmtree(d, ignore_errors=True)
     seen, uniq = set(), []
     for f in fails:
         if f["id"] not in seen:
             seen.add(f["id"])
             uniq.append(f)
     return [BoundedResult("token and error lines under layouts (real lexer, parser, interpreter)",
-                          f"{len(TOKENS)} token kinds x {len(FOLLOW)} followers x 4 successors x 3 leading layouts; {len(progs)} faulty programs x {nlay} random multi-line layouts",
+                          f"{len(TOKENS)} token kinds x {len(FOLLOW)} followers x 4 successors x 3 leading layouts; {len(progs)} faulty programs x {nlay} random multi-line layouts; errors inside a user module and a bundled module under every import form and alias history",
                           ev, ev, uniq, [{"src": "x\\ny"}], "parser node positions are outside the proof part", time.time() - t0)]
